@@ -529,6 +529,26 @@ func init() {
 					}
 				}
 			}
+			for _, cidr := range []string{"0.0.0.0/0", "::/0", "0.0.0.0/1", "128.0.0.0/1", "::/1", "8000::/1", "0.0.0.0/2", "2000::/3", "8.8.8.0/24", "2606:4700::/32"} {
+				_, nw, err := net.ParseCIDR(cidr)
+				if err != nil {
+					continue
+				}
+				ca := leafTemplate()
+				ca.IsCA, ca.BasicConstraintsValid, ca.KeyUsage, ca.PermittedDNSDomainsCritical = true, true, stdx509.KeyUsageCertSign, true
+				ca.PermittedIPRanges = []*net.IPNet{nw}
+				if der, c, err := issue(ca, nil); err == nil {
+					ladder++
+					want := int(lint.Pass)
+					if util.IntersectsIANAReserved(*nw) {
+						want = int(lint.Error)
+					}
+					if r := zlint.LintCertificateEx(c, fr).Results["e_ext_nc_intersects_reserved_ip"]; r != nil && int(r.Status) != want {
+						out.Violate("C19|nc-lint-disagrees-with-predicate:"+cidr, fmt.Sprintf("e_ext_nc_intersects_reserved_ip reports %s for the permitted range %s, while util.IntersectsIANAReserved (compared with the model above) says %v", r.Status, cidr, want == int(lint.Error)),
+							map[string]interface{}{"der": hexs(der), "range": cidr}, lint.LintStatus(want).String(), r.Status.String())
+					}
+				}
+			}
 			out.Stats["lint_date_region_probes"] = ladder
 		}
 		// the two reverse-DNS lints (Kernels/Arpa.v) on directed names of both zones and on the zoo
